@@ -203,6 +203,35 @@ def run(ctx):
                 obj.charts = []
             if not (obj == other) or str(obj) != str(other):
                 res.violation(case, "equality / serialization do not see exactly the mapping's content"); continue
+        if kind != "SMChart" and all(isinstance(v, str) for _, v in final):
+            # ... and nothing less: a mapping with one more item at the end, without its last item, with one value changed, or with
+            # two neighbouring items exchanged is a different mapping, so the objects compare unequal (== False, != True, both ways)
+            variants = [("one more item at the end", final + [["ZZEXTRA", ""]]), ("one more alias item at the end", final + [["ZZEXTRA2", "v"]])]
+            if final:
+                variants.append(("last item removed", final[:-1]))
+                j = rng.randrange(len(final))
+                variants.append(("one value changed", final[:j] + [[final[j][0], final[j][1] + "~"]] + final[j + 1:]))
+                variants.append(("first item removed", final[1:]))
+            if len(final) > 1:
+                j = rng.randrange(len(final) - 1)
+                variants.append(("two neighbouring items exchanged", final[:j] + [final[j + 1], final[j]] + final[j + 2:]))
+            bad = None
+            for what, items in variants:
+                o2 = cls()
+                for k, v in items: dict.__setitem__(o2, k, v) if False else OrderedDict.__setitem__(o2, k, v)
+                if kind.endswith("Simfile"):
+                    o2.charts = []
+                    try: obj.charts
+                    except AttributeError: obj.charts = []
+                try:
+                    verdicts = [obj == o2, o2 == obj, not (obj != o2), not (o2 != obj)]
+                except Exception as e:
+                    verdicts = [core.exc_name(e)]
+                if verdicts != [False] * 4:
+                    bad = (what, items, verdicts); break
+            res.count("inequality_checked")
+            if bad:
+                res.violation(case, "objects whose mappings differ (%s) do not compare unequal" % bad[0], impl=str(bad[2]), other=str(bad[1])[:300]); continue
         if kind.endswith("Simfile") and all(k == k.upper() and k.strip() == k for k, _ in final) and all(isinstance(v, str) for _, v in final):
             # serialization sees exactly the mapping's content, in the mapping's order: the text parses back to the same item list
             try:
